@@ -67,7 +67,36 @@ def plan(tier, seed):
     for first in NONEDIT_OPS:
         for r in range(b["spread"]):
             items.append({"first": first, "residue": r, "spread": b["spread"], "tier": tier})
+    # the same histories with the library's loggers ENABLED (every other partition runs with logging disabled): level 1 = every
+    # record incl. the parsers' own level-5 "loaded from the cache" record, 5 = exactly that level, 10 = DEBUG
+    for level in LOG_LEVELS[tier]:
+        for first in NONEDIT_OPS:
+            if first[0] in ("Flood", "Pm") and tier == "quick":
+                continue
+            items.append({"first": first, "residue": 0, "spread": 1, "tier": tier, "log": level, "depth": LOG_DEPTH[tier]})
     return items
+
+
+LOG_LEVELS = {"quick": [1, 5], "thorough": [1, 5, 10, 20]}
+LOG_DEPTH = {"quick": 2, "thorough": 3}
+
+
+def _set_logging(level):
+    """None: all logging disabled (default of every check); n: every logger of the process enabled from level n on, records go to a
+    NullHandler (nothing is formatted or printed)"""
+    import logging
+
+    if level is None:
+        logging.disable(logging.CRITICAL)
+        return
+    logging.disable(logging.NOTSET)
+    root = logging.getLogger()
+    if not any(isinstance(h, logging.NullHandler) for h in root.handlers):
+        root.addHandler(logging.NullHandler())
+    root.setLevel(level)
+    for lg in list(logging.Logger.manager.loggerDict.values()):
+        if isinstance(lg, logging.Logger) and lg.name.startswith("ahbicht"):
+            lg.setLevel(level)
 
 
 _I = None
@@ -322,6 +351,9 @@ def run_item(item):
         worker_init()
     b = BOUNDS[item["tier"]]
     r = Result()
+    _set_logging(item.get("log"))
+    if item.get("log") is not None:
+        r.stat("histories_run_with_logging_enabled", 0)
     if item.get("fam") == "flood-edit":
         p = FLOOD_EDIT_P[item["p"]]
         prefix = [p, ["Flood", item["n"]], p]
@@ -346,7 +378,9 @@ def run_item(item):
                             f"after history {hist}: {v['target']} differs from the cold-state result")
         r.sample({"history": prefix + ["Edit(...) x %d" % (len(hists) - 1)]})
         return r
-    res = histories.bfs(execute, [item["first"]], b["depth"], op_filter=_filter(b, item))
+    res = histories.bfs(execute, [item["first"]], item.get("depth", b["depth"]), op_filter=_filter(b, item))
+    if item.get("log") is not None:
+        r.stats["histories_run_with_logging_enabled"] = res.histories
     r.evaluations = res.histories
     r.states = res.states
     r.transitions = res.transitions
@@ -356,13 +390,20 @@ def run_item(item):
     r.stats["max_depth_seen"] = res.max_depth
     r.stat("deduplicated_states", res.deduplicated)
     for hist, v in res.violations:
-        r.violation(v["kind"], {"history": hist, "target": v["target"]}, v["expected"], v["observed"],
-                    f"after history {hist}: {v['target']} differs from the cold-state result")
+        case = {"history": hist, "target": v["target"]}
+        if item.get("log") is not None:
+            case["log"] = item["log"]
+        r.violation(v["kind"], case, v["expected"], v["observed"],
+                    f"after history {hist}" + (f" with loggers enabled from level {item['log']}" if item.get("log") is not None else "") +
+                    f": {v['target']} differs from the cold-state result")
     for s in res.samples:
         r.sample({"history": s}, limit=4)
     return r
 
 
 def replay(case):
+    if _I is None:
+        worker_init()
+    _set_logging(case.get("log"))
     _, viol, _ = execute(case["history"])
     return [{"kind": v["kind"], "case": case, "expected": v["expected"], "observed": v["observed"]} for v in viol]
